@@ -148,8 +148,9 @@ def make_strategy(rng, spec=None):
 # ---------------------------------------------------------------------------
 
 class CacheHarness:
-    def __init__(self, A):
+    def __init__(self, A, execute=None):
         self.A = A
+        self.execute = execute or simrt.execute      # Engine B passes its own
 
     def run(self, scen, strategy, inject=None, max_steps=60000):
         """inject: None or dict(thread=name, k=int, then='leave'|'close'|'runner')"""
@@ -182,6 +183,8 @@ class CacheHarness:
                 n = ninv[0]
                 lp = aio.get_running_loop()
                 emit('istart', n, key, lp.sim_name, cid_var.get())
+                if hasattr(s, 'inv_begin'):          # Engine B: online overlap monitor
+                    s.inv_begin(key, n, lp)
                 dur, fail = invs[min(n - 1, len(invs) - 1)]
                 try:
                     if dur == 'none':
@@ -199,6 +202,9 @@ class CacheHarness:
                 except GeneratorExit:
                     emit('iend', n, 'gexit')
                     raise
+                finally:
+                    if hasattr(s, 'inv_end'):
+                        s.inv_end(n)
                 emit('iend', n, 'ok')
                 return (key, n)
 
@@ -313,7 +319,7 @@ class CacheHarness:
                     lp.stop()
                 s.at(inject['thread'], inject['k'], stopper)
 
-        r = simrt.execute(main, strategy, max_steps=max_steps, watchdog=60.0, pre=pre)
+        r = self.execute(main, strategy, max_steps=max_steps, watchdog=60.0, pre=pre)
         r.cache = box.get('cache')
         return r
 
@@ -374,14 +380,16 @@ class View:
         return min(cands) if cands else (None, None)
 
 
-def judge_c01(v: View, res: CaseResult, retaining=True):
+def judge_c01(v: View, res: CaseResult, retaining=True, overlap=True):
     first_ok = {}
     for n in sorted(v.inv):
         d = v.inv[n]
         key = d['key']
         # overlap: another invocation of this key in progress on a running loop
+        # (Engine B decides this clause online instead: there the log cannot order
+        # 'loop stopped' and a take-over atomically)
         for m, o in v.inv.items():
-            if m == n or o['key'] != key or o['s0'] > d['s0']:
+            if not overlap or m == n or o['key'] != key or o['s0'] > d['s0']:
                 continue
             end_seq, _ = v.inv_live_end(o)
             if end_seq is None or end_seq > d['s0']:
@@ -475,9 +483,9 @@ def judge_c06(v: View, res: CaseResult, cache, scen):
 
 
 def judge_c05_termination(v: View, res: CaseResult, r):
-    if r.verdict in ('deadlock', 'stepbound'):
+    if r.verdict in ('deadlock', 'stepbound', 'timebound'):
         pending = [c for c in v.calls.values() if c['s1'] is None]
-        sig = 'C05:' + ('never-returns' if r.verdict == 'deadlock' else 'spins')
+        sig = 'C05:' + ('spins' if r.verdict == 'stepbound' else 'never-returns')
         res.violate(sig, f'execution ended in {r.verdict} with {len(pending)} caller(s) pending',
                     pending=pending, blocked=r.blocked)
 
@@ -585,8 +593,8 @@ class CacheCheck(Check):
 
     # sizes: (n_rand, n_takeover, n_small_random, sweep stride)
     SIZES = {
-        'quick': {'rand': 60000, 'take': 14000, 'small': 14000, 'sweep': 3000},
-        'thorough': {'rand': 1400000, 'take': 300000, 'small': 200000, 'sweep': 60000},
+        'quick': {'rand': 60000, 'take': 14000, 'small': 14000, 'sweep': 3000, 'real': 48},
+        'thorough': {'rand': 1400000, 'take': 300000, 'small': 200000, 'sweep': 60000, 'real': 1200},
     }
     budget = {'quick': 45.0, 'thorough': 780.0}
 
@@ -596,6 +604,8 @@ class CacheCheck(Check):
         # interleave families so that a time-truncated run still covers all of them
         fams = [('rand', sz['rand']), ('take', sz['take']), ('small', sz['small']),
                 ('sweep', sz['sweep'])]
+        if self.pid in ('C01', 'C06'):
+            fams.append(('real', sz['real']))
         total = sum(n for _, n in fams)
         left = dict(fams)
         rng = random.Random(seed * 7919 + 13)
@@ -635,7 +645,40 @@ class CacheCheck(Check):
                           'then': rng.choice(['leave', 'close', 'runner'])}
         return scen, strat, inject
 
+    def run_real(self, case):
+        """Engine B: a child process runs a batch of free-running executions with real threads."""
+        import json as _json
+        import os as _os
+        import subprocess as _sp
+        from vf.core import PY, VERIF, REPO
+        res = CaseResult()
+        env = dict(_os.environ, PYTHONPATH=_os.pathsep.join([REPO, VERIF]), PYTHONHASHSEED='0')
+        try:
+            p = _sp.run([PY, '-m', 'vf.engine_b', 'cache', self.flavour, str(case['seed']), '25'], env=env, cwd=VERIF,
+                        capture_output=True, timeout=300)
+            out = _json.loads(p.stdout.decode().strip().splitlines()[-1])
+        except Exception as e:        # noqa
+            res.inconclusive = f'engine B child failed: {e!r}'
+            return res
+        res.stats.update(out['stats'])
+        res.stats['fam_real'] += 1
+        for v in out['violations']:
+            if v['sig'].startswith('B:'):
+                res.inconclusive = v['what']
+            else:
+                res.violations.append({'sig': v['sig'] + ':engineB' if False else v['sig'], 'what': v['what'] + ' [Engine B, real threads]',
+                                       'detail': v['detail']})
+        res.nontrivial = out['stats'].get('path_cross_loop_wait', 0) > 0
+        res.sig = f"real:{out['stats'].get('real_injected_yields', 0)}"
+        res.sample = {'engine': 'B', 'executions': out['stats'].get('real_executions'),
+                      'injected_yields': out['stats'].get('real_injected_yields')}
+        if res.nontrivial:
+            res.stats['nontrivial'] += 1
+        return res
+
     def run_case(self, case):
+        if case['fam'] == 'real':
+            return self.run_real(case)
         scen, strat, inject = self.build(case)
         r = self.h.run(scen, strat, inject)
         res = CaseResult()
@@ -687,7 +730,7 @@ class CacheCheck(Check):
             if r.verdict is None and (v.cancel_reqs or any(c['kind'] in ('timeout', 'cancelled')
                                                            for c in v.calls.values())):
                 judge_c05_prompt(v, res, tag='C06')
-            if r.verdict in ('deadlock', 'stepbound'):
+            if r.verdict in ('deadlock', 'stepbound', 'timebound'):
                 st['nonterminating_execution_left_to_C05'] += 1
             res.nontrivial = any(st.get(k) for k in ('own_failure', 'own_cancel', 'own_timeout',
                                                      'recompute_after_failure'))
